@@ -34,7 +34,7 @@ let () =
            let sc = { s_has_samples = hs; s_min = z_of_int mins; s_full = z_of_int fulls } in
            let r = integrate1 fops sc per sm wd gd gc in
            Printf.printf "%d %s\n" (List.length r) (hexs r)
-         | "TI1D" ->
+         | "TI1D" | "TI1DG" ->
            let per = nb () in let hs = nb () in
            let mins = ni () in let fulls = ni () in let n = ni () in
            let wd = nf () in
@@ -43,8 +43,9 @@ let () =
            let sc = { s_has_samples = hs; s_min = z_of_int mins; s_full = z_of_int fulls } in
            let r = ti_integral1 fops sc per wd gd gc in
            Printf.printf "%d %s\n" (List.length r) (hexs r)
-         | "DIV" | "SOLVE" ->
-           let solve = (w.(0) = "SOLVE") in
+         | "DIV" | "SOLVE" | "SOLVE2" ->
+           let solve = (w.(0) <> "DIV") in
+           let twice = (w.(0) = "SOLVE2") in
            let nd = ni () in
            let per = Array.init nd (fun _ -> nb ()) in
            let nxg = Array.init nd (fun _ -> ni ()) in
@@ -68,6 +69,7 @@ let () =
              else begin
                let itmax = ni () in let tol = nf () in
                let ((x, _), (iter, err)) = integrate2 fops sh (nat_of_int itmax) tol stb.dv2 (fun _ -> 0.0) (-1.0) in
+               let ((x, _), (iter, err)) = if twice then integrate2 fops sh (nat_of_int itmax) tol stb.dv2 x err else ((x, x), (iter, err)) in
                Printf.printf "%d %d %s | %s | %s\n" (List.length bat) (int_of_z iter) (hex err) (hexs bat) (hexs (dump2 sh x))
              end
            end else begin
@@ -88,6 +90,7 @@ let () =
              else begin
                let itmax = ni () in let tol = nf () in
                let ((x, _), (iter, err)) = integrate3 fops sh (nat_of_int itmax) tol stb.dv3 (fun _ -> 0.0) (-1.0) in
+               let ((x, _), (iter, err)) = if twice then integrate3 fops sh (nat_of_int itmax) tol stb.dv3 x err else ((x, x), (iter, err)) in
                Printf.printf "%d %d %s | %s | %s\n" (List.length bat) (int_of_z iter) (hex err) (hexs bat) (hexs (dump3 sh x))
              end
            end
